@@ -1196,7 +1196,9 @@ func vfGenExchange(t *rapid.T) vfExchange {
 			s.Fault = "refused"
 		}
 		s.FaultAt = rapid.IntRange(0, 12).Draw(t, "faultAt")
-		s.RSTCode = uint32(rapid.SampledFrom([]http2.ErrCode{http2.ErrCodeCancel, http2.ErrCodeInternal, http2.ErrCodeProtocol, http2.ErrCodeEnhanceYourCalm}).Draw(t, "rstCode"))
+		// any error code, NO_ERROR included (REFUSED_STREAM has a meaning of its own: the "refused" fault)
+		s.RSTCode = uint32(rapid.SampledFrom([]http2.ErrCode{http2.ErrCodeCancel, http2.ErrCodeNo, http2.ErrCodeInternal, http2.ErrCodeProtocol, http2.ErrCodeEnhanceYourCalm,
+			http2.ErrCodeNo, http2.ErrCodeFlowControl, http2.ErrCodeStreamClosed, http2.ErrCodeHTTP11Required}).Draw(t, "rstCode"))
 		ex.Streams = append(ex.Streams, s)
 		if s.Fault == "refused" && s.Named && len(ex.Streams) < 6 && rapid.Bool().Draw(t, "retry") {
 			r := s
